@@ -47,6 +47,12 @@ CLAIMED = {
  "C20": dict(cat="model_checking", ref="6 C20",
    tech="TLC: extractor-by-extractor call binding in CelEval vs CelDen over all small call programs; trace validation of the zoo signature table x argument counts/kinds x both styles, twin styles for built-ins, overrides",
    text="Receiver/argument binding is specified extractor by extractor (receiver, typed/raw argument, all-arguments, identifier) and model-checked against the denotation on all programs with <=2 calls. Every zoo signature (arity 0-9) is called with 0..arity+2 arguments of matching and mismatching kinds in both styles; what the closure logged and the outcome must equal the specification. x.f(a) and f(x,a) are recorded side by side for every receiver-style built-in over 11 kinds and must agree; overriding a built-in must take effect, also inside macro bodies."),
+ "C15": dict(cat="model_checking", ref="6 C15",
+   tech="TLC: CelDuration (Go duration grammar, exact decimal parse, canonical print) round-trip theorem on a boundary grid; trace validation of string(d), duration(s) over a mutation grammar, + - and comparisons",
+   text="Parse and Format are specified on exact nanosecond counts and TLC checks Parse(Format(n)) = n and the rendering's shape over boundary values of both signs. cel-rust's string(d) must equal Format exactly, duration(string(d)) == d, duration(s) must be rejected exactly when s is not a sequence of decimal-number-plus-unit terms (trailing text, missing unit, exponent, inf/nan, spaces...), and + - < <= > >= == on all boundary pairs must act on the nanosecond counts or report overflow."),
+ "C16": dict(cat="model_checking", ref="6 C16",
+   tech="TLC: proleptic Gregorian calendar of CelTime checked day by day (round trip, successor, weekday, year-day, anchors); trace validation of parse, accessors, rendering, comparison and arithmetic on harness-written RFC 3339 timestamps",
+   text="The calendar is specified from first principles and every day number of a multi-century range is a TLC state (civil<->days round trip, next-day, weekday, year-day, known anchors). Timestamps are written as RFC 3339 text by the harness (boundary dates x times x offsets -12:00..+14:00, random), parsed by cel-rust and the instant compared with the specification's own parse; each of the ten accessors must return the local calendar field with the documented origin; string(t) must denote the same instant/offset; ordering is by instant; t+d-d==t and (t+d)-t==d within years 1..9999."),
 }
 
 def main():
